@@ -61,7 +61,7 @@ P['C20'] = dict(
          'no write goes through a closure variable, module global, class name or cls, except cls._default_instance '
          'inside `with cls._lock`; the lexer read path (get_tokens, is_keyword, tokenize) never stores to the shared '
          'lexer; no class-level containers/instances, no mutable defaults, no lazily created token types, no memoised function (caching decorator) on the reachable path; monitor '
-         'obligations on get_default_instance; default_initialization re-establishes the same configuration from any '
+         'obligations on get_default_instance (incl.: no other function reads the shared instance while it is published before its initialisation); default_initialization re-establishes the same configuration from any '
          'state. Thread schedules are not enumerated in this family; a bounded history/thread stand-in runs beside it.',
     note='Trusted: the syntactic write-set analysis (aliasing through parameters not tracked), GIL atomicity of '
          'attribute access, thread safety of compiled re patterns, the scheduler.',
@@ -70,29 +70,29 @@ P['C20'] = dict(
 BND = ' A bounded stand-in (native oracle = executable transcription of the property statement, on an enumerated domain) runs beside the proof and is reported separately; it is never counted as proved.'
 P['C02'] = dict(text='Proof: lexer loop invariant (C01); group_tokens preserves the text of the node for every list, slice and class, in both branches (ghost text with concatenation laws, no quantifiers); TokenList.__init__ caches the text of its children; the 25 grouping passes write the tree only through group_tokens (frame obligations over the AST); splitter hand-over obligations over the real loop body of process (every token joins exactly one statement, also when a statement is empty; the yielded list is not written afterwards); _group_matching (six classes), the nine simple passes, and the infix joiner _group (verified once under a generic closure contract, each of its ten instantiating passes checked to satisfy that contract) call group_tokens only within its preconditions.' + BND,
     note='Trusted: re match contract; ownership-based local invariants (a node has one parent) as the methodology that lifts the per-node text invariant to all ancestors; pyvc; z3. flatten/__str__ by shape obligations.', tech=TECH + 'ghost-text heap model with generator-instantiated lemmas', ref='5 C02')
-P['C03'] = dict(text='Proof of the tree invariant for the functions that establish and maintain it: Token.__init__ (leaf flags, normalized), TokenList.__init__ (same list object, children re-parented, cached value), group_tokens new-group and extend branches (Inv I1-I6 for the new/extended group and for self, element identity, length bookkeeping); navigation helpers _token_matching forward/reverse (first match via interval summaries), token_next / token_prev (through the call-site contract with the real closure), token_index, get_token_at_offset (the leaf whose character span contains the offset, None outside), within / has_ancestor / is_child_of against the ancestry chain of a token (abstract sequence of ancestors linked by the parent references: within(cls) <=> some ancestor is an instance of cls, has_ancestor(o) <=> o is an ancestor, is_child_of(o) <=> o is the parent); _group_matching for all six bracket/block classes (loop invariant over the stack of open positions: sorted, below the cursor, elements still at their positions) the nine simple passes (every group_tokens call satisfies 0 <= start <= end < len); the infix joiner _group for any class and any closures satisfying a stated closure contract (loop invariant: current list = processed prefix ++ unvisited rest of the snapshot, previous-neighbour index bounded, absorbed tokens skipped) and its ten instantiating passes, whose real closures are run symbolically at the call site and checked against that contract; frame and identity side conditions.' + BND,
+P['C03'] = dict(text='Proof of the tree invariant for the functions that establish and maintain it: Token.__init__ (leaf flags, normalized), TokenList.__init__ (same list object, children re-parented, cached value), group_tokens new-group and extend branches (Inv I1-I6 for the new/extended group and for self, element identity, length bookkeeping); navigation helpers _token_matching forward/reverse (first match via interval summaries), token_next / token_prev (through the call-site contract with the real closure), token_index, get_token_at_offset (the leaf whose character span contains the offset, None outside), within / has_ancestor / is_child_of against the ancestry chain of a token (abstract sequence of ancestors linked by the parent references: within(cls) <=> some ancestor is an instance of cls, has_ancestor(o) <=> o is an ancestor, is_child_of(o) <=> o is the parent); _group_matching for all six bracket/block classes (loop invariant over the stack of open positions: sorted, below the cursor, elements still at their positions) the nine simple passes (every group_tokens call satisfies 0 <= start <= end < len); the infix joiner _group for any class and any closures satisfying a stated closure contract (loop invariant: current list = processed prefix ++ unvisited rest of the snapshot, previous-neighbour index bounded, absorbed tokens skipped) and its ten instantiating passes, whose real closures are run symbolically at the call site and checked against that contract; frame and identity side conditions; no pass of the grouping engine stores to the type or value of a token other than `.ttype = T.Operator`.' + BND,
     note='Not under contract (bounded only): WHICH tokens the joiner passes group (their predicates are only proved total and effect-free); termination of the ancestor walk is not proved; flatten() enters get_token_at_offset as a sequence model (its relation to the tree: shape obligation + I4). Trusted: methodology of local invariants, pyvc, z3.', tech=TECH + 'segment-list heap model, lazily materialised elements, interval summaries', ref='5 C03')
 P['C04'] = dict(text='Proof: split and parse consume the same lexer+splitter pass (shape obligations on split, FilterStack.__init__, run), statements keep their text under grouping (C02 obligations), splitter boundary obligations, StripTrailingSemicolonFilter removes only trailing whitespace and semicolons (per-site obligation); the lexer types every str.isspace character as Whitespace (exhaustive over the 29 characters), so the splitter\'s and str.strip\'s notions of blank agree; the scanning path of the lexer stores nothing on the lexer object (separate runs over the same text see the same tokens).' + BND,
     note='Re-splitting a piece (lexing out of context) and the strip/partition arithmetic are bounded only. Trusted: re, str.strip.', tech=TECH + 'shape obligations + bounded stand-in', ref='5 C04')
 P['C06'] = dict(text='Proof of the tree-level clause by per-site SMT obligations over the heap model: on every path of the listed layout routines (strip-whitespace family, spaces-around-operators, reindent split/where/parenthesis/values/process, aligned split/parenthesis/statement) every removed element is whitespace, every value store blanks a whitespace token, every inserted element is a fresh whitespace token (also inside insert_before / insert_after executed in place), and no other token field is written; the identifier-list layout and the CASE layout of both indent filters are verified on explicit node shapes (arbitrary item classes, texts and filter settings); the three strip_whitespace routines additionally against functional postconditions on explicit shapes (exactly the whitespace in front of commas / behind ( / in front of ) is removed, every other token is the same object in the same order); option validation proved for every option value; filter order and serializer by shape obligations.' + BND,
     note='Loops are over-approximated (arbitrary element, havoc-ed state, field taint); sibling calls by "may restructure its argument". the two _process_default routines and the _stripws dispatcher are covered by a syntactic inventory + bounded only; shape cases speak about the stated shapes only. Re-lexing the output is regex semantics: bounded only.', tech=TECH + 'per-site obligations over a heap model', ref='5 C06')
-P['C07'] = dict(text='Proof of `raises subset {SQLParseError}` for validate_options over ALL option values (None|bool|int|float incl. inf/nan|str|other), for the lexer, consume, the splitter transition, the three stream filters, get_type, get_parent_name, remove_quotes, the read-only accessors (is_wildcard, get_typecast, get_ordering, Comparison.left/right, get_window, get_parameters given a Parenthesis child, get_alias, get_real_name, get_name, has_alias, _get_first_name, get_identifiers, get_token_at_offset), the neighbour-search helpers, group_tokens, _group_matching (six classes), the nine simple grouping passes, the joiner _group with its ten instantiating passes (closures total on every child and on None) and StripWhitespaceFilter.process (also on a statement without children) (every partial operation on every path), AlignedIndentFilter._process_case on CASE shapes (the closing keyword guaranteed by the grouping is found again); every closer lookup of the CASE layout routines and of get_cases accepts every closer that Case.M_CLOSE admits (cooperating sites); validation dominates formatting; RecursionError obligations of C15.' + BND,
+P['C07'] = dict(text='Proof of `raises subset {SQLParseError}` for validate_options over ALL option values (None|bool|int|float incl. inf/nan|str|other), for the lexer, consume, the splitter transition, the three stream filters, get_type, get_parent_name, remove_quotes, the read-only accessors (is_wildcard, get_typecast, get_ordering, Comparison.left/right, get_window, get_parameters given a Parenthesis child, get_alias, get_real_name, get_name, has_alias, _get_first_name, get_identifiers, get_token_at_offset), the neighbour-search helpers, group_tokens, _group_matching (six classes), the nine simple grouping passes, the joiner _group with its ten instantiating passes (closures total on every child and on None) and StripWhitespaceFilter.process (also on a statement without children), the generators of OutputPythonFilter and OutputPHPFilter on every token list (every partial operation on every path), AlignedIndentFilter._process_case on CASE shapes (the closing keyword guaranteed by the grouping is found again); every closer lookup of the CASE layout routines and of get_cases accepts every closer that Case.M_CLOSE admits (cooperating sites); validation dominates formatting; RecursionError obligations of C15.' + BND,
     note='the other tree filters: bounded stand-in (exhaustive 2-fragment soups + random soups x option sets, accessor walk, invalid option values).', tech=TECH + 'exceptional postconditions per function', ref='5 C07')
 P['C08'] = dict(text='Proof: KeywordCaseFilter, IdentifierCaseFilter, TruncateStringFilter are per-token maps (one output per input, same type, value changed only for the target types, truncation formula) for every stream; StripCommentsFilter per-site obligations (thorough tier): only non-hint comments are removed, only fresh whitespace inserted; its closure _get_insert_token returns a whitespace leaf allocated by the call (both tiers); shape cases of _process (A <comment> B ws <hint> ws <comment>: both comments gone, hint and every other token the same object in order) and of process (a hint behind an ordinary comment inside one Comment group survives: groups are cleaned from the inside out), both tiers.' + BND,
     note='"No two tokens fused or split", idempotence: re-lexing, bounded only. Trusted: str case maps (uninterpreted total), re.', tech=TECH + 'generator contracts with ghost counters', ref='5 C08')
 P['C09'] = dict(text='Proof: group_tokens(cls, i, j) creates ONE group owning exactly tokens[i..j] (first child = tokens[i], last = tokens[j]); _group_matching for the six classes against a loop invariant over the stack of open positions (every pop groups [open, close] with open < close, the closer is the current token and matches M_CLOSE, only tokens matching M_OPEN are pushed, the stack stays sorted and below the cursor, groups of other classes are recursed into, enclosing delimiters are skipped); _is_delimiter verified per class against the property\'s notion of a delimiter (first child; every leaf matching the class\'s closing pattern wherever it stands; never a group); _group_matching executed on explicit token lists (nested parentheses, unmatched brackets, CASE, CASE inside a Parenthesis group) must produce exactly the textbook pairs; Token.__init__ (closers are matched on the normalized text); order of the six matching passes and their delimiter tables (data obligations); grouping passes write the tree only through group_tokens.' + BND + ' That the result equals the textbook matcher on the whole token stream (composition over nesting and passes) is decided by the bounded stand-in (independent stack matcher vs parsed tree).',
     note='The later infix passes: _group is proved to group index ranges of the current child list only (whole children, never parts of a bracket group), never a range containing a delimiter of the enclosing group (the any(...) guard read as an interval summary), and to recurse into every group child of another class. the end-to-end equality with the stack matcher is bounded.', tech=TECH + 'loop invariants over an integer-stack summary; bounded stand-in for the end-to-end equality', ref='5 C09')
-P['C10'] = dict(text='Proof of per-site obligations for the whitespace-normalising routines (what they may touch) and shape obligations for nl(), the split-word list, BETWEEN..AND skipping; functional normal-form postconditions of _stripws_default (loop invariant over the list order, and an explicit shape), _stripws_identifierlist and _stripws_parenthesis (explicit shapes); Token.match(..., regex=True), by which the reindent filters find their split words, searches the normalized text (re.compile().search as an uninterpreted predicate); StripWhitespaceFilter.process (trailing-token removal, total on empty statements); the serializer joins pieces right-stripped of every str.isspace character (element obligation of the real generator expression); option validation.' + BND + ' The normal forms of the whole output and the fixed points need re-lexing and adjacency across groups: bounded.',
+P['C10'] = dict(text='Proof of per-site obligations for the whitespace-normalising routines (what they may touch) and shape obligations for nl(), the split-word list, BETWEEN..AND skipping; functional normal-form postconditions of _stripws_default (loop invariant over the list order, and an explicit shape), _stripws_identifierlist and _stripws_parenthesis (explicit shapes); Token.match(..., regex=True), by which the reindent filters find their split words, searches the normalized text (re.compile().search as an uninterpreted predicate); StripWhitespaceFilter.process (trailing-token removal, total on empty statements); the serializer joins pieces right-stripped of every str.isspace character (element obligation of the real generator expression); SpacesAroundOperatorsFilter._process and StripWhitespaceFilter.process on explicit shapes (every operator between whitespace tokens; a nested group keeps its trailing whitespace); the CASE group and the identifier list are handed to the generic descent of the reindent filter under every option; option validation.' + BND + ' The normal forms of the whole output and the fixed points need re-lexing and adjacency across groups: bounded.',
     note='Normal forms of SpacesAroundOperators and of the reindent routines: per-site + bounded only.', tech=TECH + 'per-site obligations + bounded normal-form oracles', ref='5 C10')
 P['C11'] = dict(text='Proof per inspection site: Token.__init__ computes normalized = upper-cased, whitespace-collapsed value for keywords; the splitter transition ignores the value of non-keyword tokens and, by a two-run (relational) contract, gives the same result and state for any two spellings of a keyword with the same upper-cased whitespace-collapsed form; neighbour search skips whitespace (first-match contracts); the joiner _group never remembers a whitespace token of any kind as the neighbour of an infix token (loop invariant); every multi-word rule of the table the default lexer instance scans with (keywords.SQL_REGEX and anything the configuration code adds) separates words by \\s+ (structural); Token.match regex form searches the normalized text; no comparison of raw token text with a keyword constant (AST scan); matching constants are canonical.' + BND,
     note='Same tree shape for respelled scripts end-to-end: bounded stand-in.', tech=TECH + 'site obligations + structural regex facts', ref='5 C11')
-P['C12'] = dict(text='Proof: remove_quotes removes exactly one surrounding pair (against its specification function); get_parent_name returns the unquoted value of the nearest non-whitespace child before the first dot, None without one; _get_first_name (forward from an index / reverse) returns the unquoted value of the first, resp. last, name leaf (loop invariant over the real loop, first-match summaries); and the statement of C12 itself on the six Identifier shapes name | qualifier.name, alone / AS alias / bare alias (name leaves Name or quoted Symbol with arbitrary values, arbitrary non-empty whitespace runs, alias as nested Identifier): get_real_name, get_parent_name, get_alias, has_alias, get_name return the unquoted written name, qualifier, alias, alias presence, alias-or-name (30 shape cases); the passes that build these shapes (group_period, group_identifier, group_as, group_aliased, group_identifier_list) group exactly the written construct on explicit statements SELECT <construct> FROM t; neighbour-search helpers.' + BND + ' (65k cases quick, full product thorough).',
+P['C12'] = dict(text='Proof: remove_quotes removes exactly one surrounding pair (against its specification function); get_parent_name returns the unquoted value of the nearest non-whitespace child before the first dot, None without one; _get_first_name (forward from an index / reverse) returns the unquoted value of the first, resp. last, name leaf (loop invariant over the real loop, first-match summaries); and the statement of C12 itself on the six Identifier shapes name | qualifier.name, alone / AS alias / bare alias (name leaves Name or quoted Symbol with arbitrary values, arbitrary non-empty whitespace runs, alias as nested Identifier): get_real_name, get_parent_name, get_alias, has_alias, get_name return the unquoted written name, qualifier, alias, alias presence, alias-or-name (30 shape cases); the passes that build these shapes (group_period, group_identifier, group_as, group_aliased, group_identifier_list) group exactly the written construct on explicit statements SELECT <construct> FROM t, also with several whitespace tokens before an alias and a second item directly behind the comma; group_aliased AS DECORATED (the real utils.recurse applied by the executor) attaches an implicit alias inside a subquery that is itself named with AS; neighbour-search helpers.' + BND + ' (65k cases quick, full product thorough).',
     note='The composition of all passes in every context (JOIN, UPDATE/INSERT target, subquery): bounded.', tech=TECH + 'string VCs + bounded stand-in', ref='5 C12')
-P['C13'] = dict(text='Proof: first-match search for the clause-closing keyword, group_tokens span, group_where / group_functions / group_order call sites, coverage and EXTENT of group_where (every WHERE becomes a node; the grouped range starts at a WHERE keyword, contains no closing keyword behind it and is directly followed by a closing keyword of Where.M_CLOSE, the end of the list, or - inside a bracket / block group - the closing delimiter); Where.M_CLOSE lists every multi-word keyword token the lexer can emit that starts with a closing keyword; Function.get_parameters() on f(), f(x), f(a, b), f(a, b, c) and Case.get_cases() on CASE (WHEN c THEN v){1,2} [ELSE e] END return exactly the written parts (explicit shapes, generator executed in place); group_where (3 shapes), group_functions, group_comparison, group_order, group_operator, group_typecasts, group_assignment, group_comments group exactly the written construct on explicit statements; and the joiner _group with its passes for IdentifierList, Comparison, TypedLiteral, Operation (indices within the list, recursion into nested groups), IdentifierList.get_identifiers (yields exactly the children that are neither whitespace nor commas, in order), Comparison.left/right (first/last child), data obligations on Where.M_CLOSE and friends, shape obligations on get_identifiers / Comparison.left,right.' + BND,
+P['C13'] = dict(text='Proof: first-match search for the clause-closing keyword, group_tokens span, group_where / group_functions / group_order call sites, coverage and EXTENT of group_where (every WHERE becomes a node; the grouped range starts at a WHERE keyword, contains no closing keyword behind it and is directly followed by a closing keyword of Where.M_CLOSE, the end of the list, or - inside a bracket / block group - the closing delimiter); Where.M_CLOSE lists every multi-word keyword token the lexer can emit that starts with a closing keyword; Function.get_parameters() on f(), f(x), f(a, b), f(a, b, c) and Case.get_cases() on CASE (WHEN c THEN v){1,2} [ELSE e] END return exactly the written parts (explicit shapes, generator executed in place); group_where (3 shapes, and as decorated on a statement with a WHERE inside a subquery and one outside), group_functions (also with whitespace before the parenthesis), group_identifier_list with a keyword-typed item, group_comparison, group_order, group_operator, group_typecasts, group_assignment, group_comments group exactly the written construct on explicit statements; and the joiner _group with its passes for IdentifierList, Comparison, TypedLiteral, Operation (indices within the list, recursion into nested groups, no exit before the children have been looked at - for every value of any integer / boolean parameter added later), IdentifierList.get_identifiers (yields exactly the children that are neither whitespace nor commas, in order), Comparison.left/right (first/last child), data obligations on Where.M_CLOSE and friends, shape obligations on get_identifiers / Comparison.left,right.' + BND,
     note='Which neighbours the joiner passes accept, and that the grouping builds the stated shapes: bounded.', tech=TECH + 'data obligations + bounded stand-in', ref='5 C13')
 P['C15'] = dict(text='Proof of the exceptional-postcondition obligations: FilterStack.run is one try whose RecursionError handler raises SQLParseError and every pipeline call is inside it; the entry points make no tree-recursive call outside the consumption of run() (split: statements are flat because grouping is never enabled); no shared state is written and nothing is memoised (frame obligations of C20).' + BND,
     note='Assumed: CPython raises RecursionError rather than overflowing the C stack.', tech=TECH + 'structural obligations over the AST and call graph', ref='5 C15')
-P['C18'] = dict(text='Proof: Statement.get_type() returns the normalized text of the first child that is neither whitespace nor comment when it is DML/DDL, UNKNOWN when there is none or it is not DML/DDL/CTE, and for WITH the DML keyword that directly follows the first Identifier/IdentifierList child behind WITH (loop invariant over the CTE walk with ghosts computed by the verified search helpers), for every statement (neighbour-search contracts, first-match uniqueness); no DML/DDL/CTE entry of a keyword dictionary is shadowed by an earlier dictionary; a comment between the CTE definitions and the main keyword is folded into the definitions\' group by align_comments whatever whitespace separates them (shape case), so the walk reaches the DML keyword; Token.__init__ makes normalized the upper-cased, whitespace-collapsed value; typing tables.' + BND,
+P['C18'] = dict(text='Proof: Statement.get_type() returns the normalized text of the first child that is neither whitespace nor comment when it is DML/DDL, UNKNOWN when there is none or it is not DML/DDL/CTE, and for WITH the DML keyword that directly follows the first Identifier/IdentifierList child behind WITH (loop invariant over the CTE walk with ghosts computed by the verified search helpers), for every statement (neighbour-search contracts, first-match uniqueness); no DML/DDL/CTE entry of a keyword dictionary is shadowed by an earlier dictionary; a comment between the CTE definitions and the main keyword is folded into the definitions\' group by align_comments whatever whitespace separates them (shape case), so the walk reaches the DML keyword; get_type() on four explicit CTE statements (leading comment, with / without RECURSIVE, definitions as Identifier or IdentifierList); Token.__init__ makes normalized the upper-cased, whitespace-collapsed value; typing tables.' + BND,
     note='WITH statements whose definitions are not one Identifier/IdentifierList node directly followed by the DML keyword, and lexing of the first word in context: bounded.', tech=TECH + 'accessor contract over the heap model', ref='5 C18')
 P['C19'] = dict(text='Proof: Lexer.get_tokens scans exactly the text for str, the decoding with the given codec for bytes+encoding, UTF-8 else Latin-1 for bytes without encoding, the stream content for text streams, and rejects anything else with TypeError (five contract cases over the real code); one decode point; (text, encoding) passed unchanged through the entry points; parse = tuple(parsestream); CLI dataflow incl. read-before-open; every formatting flag the parser defines reaches validate_options and format().' + BND,
     note='Trusted: codecs (uninterpreted partial decode), argparse mapping (bounded).', tech=TECH + 'case contracts + dataflow obligations', ref='5 C19')
